@@ -10,6 +10,7 @@ import (
 	"io"
 	"os"
 	"os/exec"
+	"runtime"
 	"net"
 	"net/http"
 	"net/http/httptest"
@@ -44,6 +45,9 @@ type mix struct {
 	iters uint64       // max-iterations
 	drops bool         // two requests per tick for one slow worker: the second is dropped
 	setup string       // ok|fail
+	// the last iteration's body ends its goroutine (runtime.Goexit, what FailNow of a standard-library testing.T
+	// inside the body does): however such an iteration is counted, the result and the metric agree
+	goexit bool
 }
 
 var mixes = []mix{
@@ -54,6 +58,7 @@ var mixes = []mix{
 	{name: "setupfail", iters: 3, setup: "fail"},
 	{name: "1pass", iters: 1},
 	{name: "setuppanic", iters: 2, setup: "panic"},
+	{name: "last-body-goexits", iters: 3, goexit: true, fails: map[int]bool{1: true}},
 }
 
 type series struct {
@@ -145,6 +150,9 @@ func checkRuns(r *hlib.Rec, labels map[string]string, scenario string, runs []mi
 				// stages timed by the body (also under an empty name) are not iterations
 				t.Time("", func() {})
 				t.Time("step", func() {})
+				if mx.goexit && uint64(id) == mx.iters {
+					runtime.Goexit()
+				}
 				if mx.fails[id] {
 					failsN++
 					t.Fail()
@@ -187,7 +195,7 @@ func checkRuns(r *hlib.Rec, labels map[string]string, scenario string, runs []mi
 			}
 			r.Fail("C16/iteration-counts", kind, fmt.Sprintf("%s: metric has success=%d fail=%d dropped=%d, the result reports %d/%d/%d", at, got["success"], got["fail"], got["dropped"], res.Success, res.Fail, res.Dropped), input)
 		}
-		if res.Success != passes || res.Fail != failsN {
+		if !mx.goexit && (res.Success != passes || res.Fail != failsN) {
 			r.Fail("C16/result-vs-truth", "mismatch", fmt.Sprintf("%s: result %d/%d, bodies passed %d failed %d", at, res.Success, res.Fail, passes, failsN), input)
 		}
 		if mx.drops && res.Dropped == 0 {
